@@ -55,6 +55,76 @@ func (p *Program) runScan(sc *Scan) *UnitResult {
 		}
 		return res
 	}
+	if sc.Kind == "gostmts" {
+		// every go statement of the package must be listed as <function>#<k>:recover (the goroutine's function defers
+		// a closure that calls recover()) or <function>#<k>:bare (it does not; the listing records why that is safe)
+		for key, fn := range p.fnByKey {
+			if fn.Pkg == nil || fn.Pkg.Pkg.Path() != sc.Pkg {
+				continue
+			}
+			fns := append([]*ssa.Function{fn}, fn.AnonFuncs...)
+			for _, f := range fns {
+				k := 0
+				for _, b := range f.Blocks {
+					for _, in := range b.Instrs {
+						g, ok := in.(*ssa.Go)
+						if !ok {
+							continue
+						}
+						k++
+						name := strings.TrimPrefix(shortKey(key), fn.Pkg.Pkg.Name()+".")
+						if f != fn {
+							name += "$" + f.Name()
+						}
+						kind := "bare"
+						if gf := goTarget(g); gf != nil && defersRecover(gf) {
+							kind = "recover"
+						}
+						name = fmt.Sprintf("%s#%d:%s", name, k, kind)
+						found = true
+						if !allowed[name] {
+							offenders = append(offenders, name)
+						}
+					}
+				}
+			}
+		}
+		sort.Strings(offenders)
+		if len(offenders) == 0 {
+			o.Status = "unsat"
+			o.Output = fmt.Sprintf("all go statements of %s are the %d listed ones", sc.Pkg, len(sc.Allowed))
+		} else {
+			o.Status = "sat"
+			o.Output = "go statements without a recorded disposition: " + strings.Join(offenders, ", ")
+		}
+		_ = found
+		return res
+	}
+	if sc.Kind == "recoverguard" {
+		// every listed function of the package defers a closure that calls recover()
+		for _, want := range sc.Allowed {
+			ok := false
+			for key, fn := range p.fnByKey {
+				if fn.Pkg == nil || fn.Pkg.Pkg.Path() != sc.Pkg {
+					continue
+				}
+				if strings.TrimPrefix(shortKey(key), fn.Pkg.Pkg.Name()+".") == want {
+					ok = defersRecover(fn)
+				}
+			}
+			if !ok {
+				offenders = append(offenders, want)
+			}
+		}
+		if len(offenders) == 0 && len(sc.Allowed) > 0 {
+			o.Status = "unsat"
+			o.Output = fmt.Sprintf("all %d listed functions of %s defer a recover()", len(sc.Allowed), sc.Pkg)
+		} else {
+			o.Status = "sat"
+			o.Output = "functions that do not (or no longer) defer a recover(): " + strings.Join(offenders, ", ")
+		}
+		return res
+	}
 	if sc.Kind == "extcalls" {
 		return p.scanExtCalls(sc, o, res, allowed)
 	}
@@ -372,4 +442,45 @@ func dedupe(xs []string) []string {
 		}
 	}
 	return out
+}
+
+// goTarget: the function a go statement starts (closure or static callee), nil for dynamic calls.
+func goTarget(g *ssa.Go) *ssa.Function {
+	if mc, ok := g.Call.Value.(*ssa.MakeClosure); ok {
+		if f, ok := mc.Fn.(*ssa.Function); ok {
+			return f
+		}
+	}
+	return g.Call.StaticCallee()
+}
+
+// defersRecover: fn defers a function (literal or named) whose body calls the builtin recover.
+func defersRecover(fn *ssa.Function) bool {
+	for _, b := range fn.Blocks {
+		for _, in := range b.Instrs {
+			d, ok := in.(*ssa.Defer)
+			if !ok {
+				continue
+			}
+			var df *ssa.Function
+			if mc, ok := d.Call.Value.(*ssa.MakeClosure); ok {
+				df, _ = mc.Fn.(*ssa.Function)
+			} else {
+				df = d.Call.StaticCallee()
+			}
+			if df == nil {
+				continue
+			}
+			for _, db := range df.Blocks {
+				for _, din := range db.Instrs {
+					if c, ok := din.(*ssa.Call); ok {
+						if bi, ok := c.Call.Value.(*ssa.Builtin); ok && bi.Name() == "recover" {
+							return true
+						}
+					}
+				}
+			}
+		}
+	}
+	return false
 }
